@@ -85,10 +85,15 @@ fn verdicts(spends: &[SpendIn], flags: ConsensusFlags, sig: &Signature, consts: 
     let warm = ps(Some(&warm_cache));
     // (b) the bundle through validate_clvm_and_signature, (c) a generator through run_block_generator2
     let bundle = make_bundle(spends, sig.clone());
+    let mut vcs_r = None;
     let vcs = catch(std::panic::AssertUnwindSafe(|| match validate_clvm_and_signature(&bundle, BLOCK_MAX, &consts.c, flags) {
-        Ok(_) => json!(true),
-        Err(_) => json!(false),
+        Ok((o, _)) => (json!(true), Some(summary_json(&o))),
+        Err(_) => (json!(false), None),
     }))
+    .map(|(v, r)| {
+        vcs_r = r;
+        v
+    })
     .unwrap_or(json!("panic"));
     let rbg = catch(std::panic::AssertUnwindSafe(|| {
         let g = solution_generator(bundle.coin_spends.iter().map(|c| (c.coin, c.puzzle_reveal.as_ref().to_vec(), c.solution.as_ref().to_vec()))).expect("generator");
@@ -98,7 +103,11 @@ fn verdicts(spends: &[SpendIn], flags: ConsensusFlags, sig: &Signature, consts: 
         }
     }))
     .unwrap_or(json!("panic"));
-    json!({"ps": no, "ps_cold": cold, "ps_again": again, "ps_warm": warm, "vcs": vcs, "rbg2": rbg})
+    let mut v = json!({"ps": no, "ps_cold": cold, "ps_again": again, "ps_warm": warm, "vcs": vcs, "rbg2": rbg});
+    if let Some(r) = vcs_r {
+        v["vcs_r"] = r;
+    }
+    v
 }
 
 /// what make_aggsig_final_message yields for every AGG_SIG condition of the validated summary
@@ -142,7 +151,7 @@ fn event(spends: &[SpendIn], flag_names: &[String], consts: &Consts, signed: &[P
     }
     json!({"k": "sig", "kind": kind, "flags": flag_names, "consts": consts.to_json(), "cpb": bignat_u64(consts.c.cost_per_byte), "max": bignat_u64(BLOCK_MAX),
         "spends": Value::Array(spends.iter().map(|s| json!({"parent": jbytes(&s.parent), "ph": jbytes(&s.ph), "amt": bignat_u64(s.amount),
-            "puzzle": s.puzzle.to_json(), "solution": s.solution.to_json(), "plen": ser_plain(&s.puzzle).len(), "slen": ser_plain(&s.solution).len()})).collect()),
+            "puzzle": s.puzzle.to_jsonf(), "solution": s.solution.to_jsonf(), "plen": ser_plain(&s.puzzle).len(), "slen": ser_plain(&s.solution).len()})).collect()),
         "runs": runs, "vk": Value::Array(vk.iter().filter(|k| key_valid(k)).map(|k| jbytes(k)).collect()),
         "signed": pairs_json(signed), "wellformed": true,
         "res": verdicts(spends, flags, &sig, consts, good),
